@@ -5,6 +5,7 @@ import ActsModel.Driver.Store
 import ActsModel.Driver.Msg
 import ActsModel.Driver.Value
 import ActsModel.Driver.Glob
+import ActsModel.Driver.Tmo
 open Lean Acts.Driver
 
 def dispatch (req : Lean.Json) : Lean.Json :=
@@ -16,6 +17,9 @@ def dispatch (req : Lean.Json) : Lean.Json :=
   | "c14.tmpl" => tmplCase req
   | "c18.glob" => globCase req
   | "c18.chan" => chanCase req
+  | "c19.run" => tmoRun req
+  | "c19.monitor" => tmoMonitor req
+  | "c19.parse" => tmoParse req
   | "ping" => Lean.Json.mkObj [("pong", Lean.Json.bool true)]
   | c => Lean.Json.mkObj [("error", Lean.Json.str s!"unknown cmd {c}")]
 
